@@ -150,7 +150,7 @@ class Run:
                     last = json.loads(l).get("t")
                     break
             ids = [b.get("id") for b in rest]
-            if last is None or last not in ids or crashes is None or rounds > 6:
+            if last is None or last not in ids or crashes is None:
                 self.log(p.stdout[-2000:] + p.stderr[-4000:])
                 raise Inconclusive("harness %s failed (rc=%d) and the failure cannot be attributed to a behaviour" % (cmd, p.returncode))
             k = ids.index(last)
@@ -160,6 +160,9 @@ class Run:
             crashes.append({"behaviour": rest[k], "rc": p.returncode, "signature": sig[:3], "stderr_tail": p.stderr[-3000:]})
             self.log("harness %s[%d]: process died (rc=%d) while running behaviour %s: %s" % (cmd, i, p.returncode, last, sig[:1]))
             rest = rest[k + 1:]
+            if rounds >= 4:
+                self.log("harness %s[%d]: %d crashes in this slice; the remaining %d behaviours of the slice are not run" % (cmd, i, rounds, len(rest)))
+                break
         return out
 
     def harness_parallel(self, binary, cmd, behaviours, label, procs=8, timeout=1500, extra_args=None, crashes=None):
